@@ -1007,7 +1007,16 @@ class Interp(object):
     old = self.spec; self.spec = True
     try:
       c = self._bt(self.truth(self.ev(cond, sub)))
-      b = self._bt(self.truth(self.ev(body, sub)))
+      try:
+        b = self._bt(self.truth(self.ev(body, sub)))
+      except Unsupported:
+        # The body left the supported subset (e.g. indexing a concrete EMPTY list with the bound
+        # variable).  If the guard ALONE - without any path condition - has no solution, the
+        # quantifier's value does not depend on the body: forall over an empty range is True,
+        # exists is False.  Anything else stays unsupported (undecided, never passed).
+        s = z3.Solver(); s.set("timeout", 2000); s.add(c)
+        if s.check() != z3.unsat: raise
+        return is_forall
     finally:
       self.spec = old
     if is_forall: return self.wrap_bool(z3.ForAll(bound, z3.Implies(c, b)))
